@@ -171,7 +171,7 @@ PROFILES.update({
              "deaths": False, "steps": 20},
     "hooks": {"sigkill": 0.35, "sighook": 0.4, "hooks": HOOK_NAMES[:8], "cmds": ["start", "stop", "restart", "signal", "kill", "reload"],
               "stubborn": 0.5, "steps": 16},
-    "signals": {"watchers": 3, "stop_children": True, "fork": 0.25, "anypid": 0.7, "childany": 0.3, "childsel": 0.2, "cmds": ["signal", "signal", "kill", "stop", "incr"],
+    "signals": {"watchers": 3, "stop_children": True, "stop_signal": True, "fork": 0.25, "anypid": 0.7, "childany": 0.3, "childsel": 0.2, "cmds": ["signal", "signal", "kill", "stop", "incr"],
                 "steps": 18},
     "boot": {"watchers": 4, "autostart": True, "patterns": 0.5, "hooks": ["before_spawn", "after_spawn"], "slowhooks": 0.8,
              "Ws": [0.0, 0.1, 0.2, 0.3], "wgs": [0.0, 0.1, 0.3, 0.5], "cmds": ["restart", "start", "stop"], "steps": 8, "kcall_deaths": 0.6,
